@@ -18,6 +18,6 @@ Extraction "model.ml"
   Patterns.m_include Patterns.m_include_except Patterns.m_definition Patterns.m_comment Patterns.m_flags Patterns.m_prefix Patterns.m_suffix
   Patterns.m_block_start Patterns.m_block_end Patterns.m_processor_start Patterns.m_assemble_input Patterns.m_assemble_output Patterns.ref_here
   ParseLine.parse_line ParseLine.all_pnames ParseLine.build_pair_map ParseLine.split_args
-  Format.process_line Format.format_bytes Format.layout Format.format_eof Format.check_header
+  Format.process_line Format.format_bytes Format.format_bytes2 Format.layout Format.format_eof Format.check_header
   Update.update_contents Update.read_current Update.unchanged Update.rx_match Update.locate
-  Consts.parse_uint_bits Consts.max_scan_token_size Consts.standard_header.
+  Consts.parse_uint_bits Consts.max_scan_token_size Consts.scan_limit_parser_parse Consts.scan_limit_assembler_assemble Consts.scan_limit_format_process_file Consts.scan_limit_renumber_process_yaml Consts.scan_limit_copyright_update_rules Consts.scan_limit_replace_suffixes Consts.scan_limit_remove_exclusions Consts.scan_limit_build_inclusion_line_map Consts.standard_header.
